@@ -207,23 +207,23 @@ type zzC13Exec struct {
 	writesIn []int // write transactions attempted per finished epoch
 
 	// bookkeeping
-	resolvedSeen  map[int]int // epoch -> resolved signals handled
-	learnedSeen   int
-	restarts      int
-	crashStims    []int    // stimulus number at which crash i was noticed
-	crashStates   []string // arbitrator state (in memory) when crash i was noticed
-	diskStates    []string // arbitrator state found on disk at restart i
-	keysSeen      map[string]bool
+	resolvedSeen map[int]int // epoch -> resolved signals handled
+	learnedSeen  int
+	restarts     int
+	crashStims   []int    // stimulus number at which crash i was noticed
+	crashStates  []string // arbitrator state (in memory) when crash i was noticed
+	diskStates   []string // arbitrator state found on disk at restart i
+	keysSeen     map[string]bool
 	// resolver key -> name, for resolvers found persisted as "resolved"
 	// in the unresolved-contracts bucket at a restart
 	resolvedAtRestart map[string]string
-	postBlocks    int
-	terminalAt    int // stimulus at which the channel was marked fully closed
-	markAttempts  int
-	earlyMark     string
-	slackUsed     int
-	skippedOps    int
-	localCommitUp bool
+	postBlocks        int
+	terminalAt        int // stimulus at which the channel was marked fully closed
+	markAttempts      int
+	earlyMark         string
+	slackUsed         int
+	skippedOps        int
+	localCommitUp     bool
 
 	out *zzC13Outcome
 }
